@@ -9,3 +9,10 @@ func AllocU(size uintptr) unsafe.Pointer {
 	b := make([]byte, size+8)
 	return unsafe.Pointer(&b[0])
 }
+
+// z_error.go: the error type of run-time panics without the "runtime error: " prefix
+type plainError string
+
+func (e plainError) RuntimeError() {}
+
+func (e plainError) Error() string { return string(e) }
